@@ -249,7 +249,9 @@ func runC01(c *RuleCtx) {
 	}
 	share(runC05, func(o *Obligation) bool { return true })
 	share(runC06, func(o *Obligation) bool { return o.Rule == "R06.6" || o.Rule == "R06.3" || o.Rule == "R06.1" })
-	share(runC11, func(o *Obligation) bool { return o.Rule == "R11.3" || o.Rule == "R11.3-pre" || o.Rule == "R11.1" || o.Rule == "R11.2" })
+	share(runC11, func(o *Obligation) bool {
+		return o.Rule == "R11.3" || o.Rule == "R11.3-pre" || o.Rule == "R11.1" || o.Rule == "R11.2"
+	})
 	share(runC17, func(o *Obligation) bool {
 		return inSet(o.Rule, "B4", "B6", "B7", "SCHED", "WIRE")
 	})
